@@ -329,7 +329,7 @@ fn run_case(case: &Case) -> Result<Result<Vec<String>, Bad>, String> {
     }
     // watchdog
     let t0 = Instant::now();
-    let limit = Duration::from_secs(120);
+    let limit = Duration::from_secs(90);
     let mut hung = false;
     while handles.iter().any(|h| !h.is_finished()) {
         if t0.elapsed() > limit {
